@@ -58,23 +58,26 @@ Tags(r) ==
                                                                      d3 == Cross(Sub(q2, q1), Sub(p1, q1))  d4 == Cross(Sub(q2, q1), Sub(p2, q1))
                                                                  IN  ((d1 > 0 /\ d2 < 0) \/ (d1 < 0 /\ d2 > 0)) /\ ((d3 > 0 /\ d4 < 0) \/ (d3 < 0 /\ d4 > 0))
                                        IN  \A j \in 1..Len(P) : PC(a, b, P[Prev(P, j)], P[j]) => \E v \in allV : OnSeg(a, b, v) /\ OnSeg(P[Prev(P, j)], P[j], v)
-                   THEN \* the case decided by Router::newBlockingShape alone: both ends of the pierced segment are vertices of other shapes lying on the
-                        \* boundary of the pierced shape, and the pierced shape was added after those shapes
-                        (IF \A h \in hits : LET P == r.polys[h[2]]
+                   THEN \* both ends of the pierced segment are vertices of neighbours lying strictly inside VERTICAL sides of the pierced shape (decided by
+                        \* the rotational sweep's on-border bookkeeping, vertexSweep, and by Router::newBlockingShape).  The unchanged library fails only
+                        \* when those sides are horizontal -- that is F30 -- so the two orientations are told apart, whatever the order of insertion.
+                        (IF \A h \in hits : LET P == r.polys[h[2]]  a == rt[h[1]]  b == rt[h[1] + 1]
+                                                     NV == UNION {{r.polys[i][j] : j \in 1..Len(r.polys[i])} : i \in DOMAIN r.polys \ {h[2]}}
+                                                     OnV(p) == \E j \in 1..Len(P) : P[Prev(P, j)][1] = P[j][1] /\ OnSeg(P[Prev(P, j)], P[j], p)
+                                                     OnH(p) == \E j \in 1..Len(P) : P[Prev(P, j)][1] # P[j][1] /\ OnSeg(P[Prev(P, j)], P[j], p)
+                                                     \* where the segment meets the boundary of the pierced shape at a neighbour's vertex (the displayed
+                                                     \* route may have merged collinear points, so these need not be points of the route)
+                                                     X == {v \in NV : OnSeg(a, b, v) /\ (OnV(v) \/ OnH(v)) /\ \A j \in 1..Len(P) : P[j] # v}
+                                                 IN  Cardinality(X) >= 2 /\ \A v \in X : OnV(v) /\ ~OnH(v)
+                         THEN {"through-shape:crossing-only-at-shape-vertices:between-neighbour-vertices-inside-its-vertical-sides"}
+                         \* the case decided by Router::newBlockingShape alone: both ends of the pierced segment are vertices of other shapes lying on the
+                         \* boundary of the pierced shape, and the pierced shape was added after those shapes
+                         ELSE IF \A h \in hits : LET P == r.polys[h[2]]
                                                 OnBd(p) == \E j \in 1..Len(P) : OnSeg(P[Prev(P, j)], P[j], p)
                                                 Own(p) == {j \in DOMAIN r.polys : j # h[2] /\ \E v \in 1..Len(r.polys[j]) : r.polys[j][v] = p}
                                             IN  /\ OnBd(rt[h[1]]) /\ OnBd(rt[h[1] + 1]) /\ Own(rt[h[1]]) # {} /\ Own(rt[h[1] + 1]) # {}
                                                 /\ \A j \in Own(rt[h[1]]) \cup Own(rt[h[1] + 1]) : j < h[2]
                          THEN {"through-shape:crossing-only-at-shape-vertices:between-vertices-of-earlier-shapes-on-its-boundary"}
-                         \* the case decided by the rotational sweep's on-border bookkeeping (vertexSweep): both ends of the pierced segment are vertices
-                         \* of neighbours lying strictly inside VERTICAL sides of the pierced shape.  (The unchanged library fails only when those
-                         \* sides are horizontal -- that is F30 -- so the two orientations are told apart.)
-                         ELSE IF \A h \in hits : LET P == r.polys[h[2]]
-                                                     InVSide(p) == /\ \E j \in 1..Len(P) : P[Prev(P, j)][1] = P[j][1] /\ OnSeg(P[Prev(P, j)], P[j], p)
-                                                                   /\ \A j \in 1..Len(P) : P[j] # p
-                                                     Own(p) == {j \in DOMAIN r.polys : j # h[2] /\ \E v \in 1..Len(r.polys[j]) : r.polys[j][v] = p}
-                                                 IN  InVSide(rt[h[1]]) /\ InVSide(rt[h[1] + 1]) /\ Own(rt[h[1]]) # {} /\ Own(rt[h[1] + 1]) # {}
-                         THEN {"through-shape:crossing-only-at-shape-vertices:between-neighbour-vertices-inside-its-vertical-sides"}
                          ELSE {"through-shape:crossing-only-at-shape-vertices"})
                    ELSE {"through-shape"})
 NonTrivial(r) == ~r.thrown /\ Len(r.disp) > 2
